@@ -31,7 +31,7 @@ SUCCEEDED = 23
 def gen_cases(tier, seed):
     n = 40 if tier == "quick" else 700
     cases = [{"id": f"c07-{seed}-{i}", "seed": seed * 5003 + i} for i in range(n)]
-    cases += [{"id": f"c07-directed-{k}", "seed": seed, "scenario": k} for k in ("optional", "optional_amend")]
+    cases += [{"id": f"c07-directed-{k}", "seed": seed, "scenario": k} for k in ("optional", "optional_amend", "renamed_output")]
     return cases
 
 
@@ -70,7 +70,7 @@ def check07(ctx):
     counters["orphans_removed_seen"] += len(removed)
     if ctx["action"] and "drop step" in ctx["action"]:
         counters["steps_dropped_seen"] += 1
-    if b.returncode.value != 0 or cfg.get("targets") or cfg.get("clean") is False:
+    if b.returncode.value != 0 or cfg.get("targets") or cfg.get("target_dirs") or cfg.get("clean") is False:
         return
     counters["clean_successful_builds"] += 1
     node = snap["node"]
@@ -166,6 +166,23 @@ def directed_optional(amend):
     return spec, two
 
 
+def directed_renamed_output():
+    """A step renames its output (same label: its program lives in a file) while a new consumer
+    still names the old path; the consumer is corrected in the next phase."""
+    import copy
+    one = {"sources": {"src/a.txt": "a\n"}, "env": {},
+           "steps": {"G": {"kind": "prog", "salt": "", "inp": ["src/a.txt"], "out": ["gen/x.txt"]}},
+           "plans": {".": [["static", ["src/a.txt", "progs/G.json"]], ["step", "G"]]}, "order": ["G"]}
+    two = copy.deepcopy(one)
+    two["steps"]["G"]["out"] = ["gen/y.txt"]
+    two["steps"]["K"] = {"kind": "do", "salt": "", "inp": ["gen/x.txt"], "out": ["copy/c.txt"]}
+    two["plans"]["."].append(["step", "K"])
+    two["order"].append("K")
+    three = copy.deepcopy(two)
+    three["steps"]["K"]["inp"] = ["gen/y.txt"]
+    return [one, two, three, three]
+
+
 def run_directed(case):
     import json
     import random
@@ -184,11 +201,15 @@ def run_directed(case):
     cwd = os.getcwd()
     os.chdir("d")
     try:
-        spec, two = directed_optional(case["scenario"] == "optional_amend")
+        if case["scenario"] == "renamed_output":
+            specs = directed_renamed_output()
+        else:
+            spec, two = directed_optional(case["scenario"] == "optional_amend")
+            specs = [spec, two, two]
         ledger = c06.Ledger()
         files = None
         snap_prev = None
-        for k, cur in enumerate([spec, two, two]):
+        for k, cur in enumerate(specs):
             ledger.note_user_files(cur)
             files = gen.render(cur, previous=files)
             bf, bd = c06.tree(".")
@@ -203,10 +224,7 @@ def run_directed(case):
                      "classes": classes, "action": "drop step D" if k == 1 else None})
             classes.add(repr((case["scenario"], k, sorted(af)[:8])))
             snap_prev = snap
-        if "out/o.txt" in af:
-            counters["optional_outputs_removed"] = 0
-        else:
-            counters["optional_outputs_removed"] = 1
+        counters["optional_outputs_removed"] = 0 if "out/o.txt" in af else 1
     finally:
         os.chdir(cwd)
         shutil.rmtree("d", ignore_errors=True)
